@@ -345,7 +345,8 @@ static void execute(const Plan &p) {
 					run.checked += chk;
 					child_ok = lp > 0;
 				} else violation("C11.child-died", "the child ended without a report (wait status 0x%x): crashed, hung past its 30-second alarm or was killed by a signal meant for the parent", st);
-				if (p.c("sig_to_parent") && !stop()) { int s = (int)(p.c("sig_to_parent") - 1) % NSIGS; if (sig_events_added(s) > 0) { run.pending_sig[s]++; fault("signal-to-parent-only"); } }
+				// (a child that was ended by an unmanaged signal never got as far as signalling its parent)
+				if (p.c("sig_to_parent") && !stop() && expect_death < 0) { int s = (int)(p.c("sig_to_parent") - 1) % NSIGS; if (sig_events_added(s) > 0) { run.pending_sig[s]++; fault("signal-to-parent-only"); } }
 				// the parent's registrations are what they were
 				if (!stop() && run.epfd >= 0) { std::string after = epoll_interest(run.epfd); if (after != before) violation("C11.parent-registrations-changed", "the parent's epoll set was {%s} before the fork and is {%s} after the child reinitialised, ran and exited", before.c_str(), after.c_str()); }
 			} else violation("C11.fork-failed", "fork: %s", strerror(errno));
